@@ -28,7 +28,7 @@ Print Assumptions C03_lexical_class_strings.
    allOf:[$ref] and offers strings (the defect below) *)
 Theorem C03_lexical_class_slots :
   length all_slots = 349
-  /\ map slot_name (filter (fun s => negb (consistent s)) all_slots) = allof_defect_slots
+  /\ inconsistent_slots = allof_defect_slots
   /\ forall slot, In slot all_slots -> consistent slot = true \/ In (slot_name slot) allof_defect_slots.
 Proof. exact c03_slots_consistent_lemma. Qed.
 Print Assumptions C03_lexical_class_slots.
@@ -145,6 +145,7 @@ Proof. exact c03_tokens_read_back_lemma. Qed.
 Print Assumptions C03_print_reads_back_partial.
 
 Example C03_guards_inhabited :
-  exists slot, In slot all_slots /\ consistent slot = true /\ slot_name slot = (Str "layer", Str "name")
-               /\ string_ok 34%N (Str "two words") = true /\ no_form (Str "two words") = true.
-Proof. eexists. split; [apply (nth_In all_slots (Str "", Str "", JNull)); vm_compute; repeat constructor|]. vm_compute. repeat split. Qed.
+  option_map consistent (find_slot (Str "layer") (Str "name")) = Some true
+  /\ string_ok 34%N (Str "two words") = true /\ no_form (Str "two words") = true
+  /\ required_for (Str "layer") (Str "name") (Str "two words") = Some (RQuoted (Str "two words")).
+Proof. repeat split; vm_compute; reflexivity. Qed.
